@@ -102,17 +102,17 @@ example : (setAfter .fat16 #[1, 2, 3] 1 .eoc).size = 3 ∧ setAfter .fat16 #[1, 
 /-- **alloc** never writes entry 0, entry 1, or a padding entry `≥ total+2` (raw values incl. reserved bits), and the
     cluster it hands out is a real one. `prev`, when given, is a data cluster. -/
 theorem reserved_entries_untouched_alloc (ft : FatType) (f : Array Nat) (total : Nat) (ht : TableOk ft f total)
-    (prev hint : Option Nat) (hstart : allocStartV hint total < total + 2) (hh : ∀ n, hint = some n → 2 ≤ n)
+    (prev hint : Option Nat) (hh : ∀ n, hint = some n → 2 ≤ n)
     (hp : ∀ p, prev = some p → 2 ≤ p ∧ p < total + 2) (i : Nat) (hi : i < 2 ∨ total + 2 ≤ i) :
     getRaw ft (allocCluster f ft prev hint total).fat i = getRaw ft f i ∧
     (∀ c, (allocCluster f ft prev hint total).out = .ok c → 2 ≤ c ∧ c < total + 2) := by
   cases hfind : allocFindV (view ft f) hint total with
   | none =>
-    rw [allocCluster_noSpace ht prev hint hstart hfind]
+    rw [allocCluster_noSpace ht prev hint hfind]
     exact ⟨rfl, fun c h => by cases h⟩
   | some c =>
     obtain ⟨hc1, hc2, _⟩ := allocFindV_some _ _ _ _ hh hfind
-    obtain ⟨f', h1, _, _, _, h5⟩ := allocCluster_ok ht prev hint hstart hh (fun p h => (hp p h).2) hfind
+    obtain ⟨f', h1, _, _, _, h5⟩ := allocCluster_ok ht prev hint hh (fun p h => (hp p h).2) hfind
     rw [h1]
     refine ⟨h5 i (by omega) ?_, ?_⟩
     · intro e; have := hp i e; omega
